@@ -1094,6 +1094,86 @@ Proof.
     intros _. destruct (t_waiters (tubof x (run ops))) eqn:Ew; [reflexivity|]. exfalso. apply W1; [discriminate|reflexivity].
 Qed.
 
+(* a lookup whose connector fails synchronously (Converge.nohints_ops) is a schedule of the model: every theorem about
+   `run ops` holds for the harness's schedules with such lookups *)
+Lemma hrun_from_run hs : forall ops0, exists ops, fold_left hstep hs (run ops0) = run ops.
+Proof.
+  induction hs as [|h hs IH]; intros ops0; cbn [fold_left].
+  - exists ops0. reflexivity.
+  - assert (E : exists ops1, hstep (run ops0) h = run ops1).
+    { destruct h as [o|x]; cbn [hstep].
+      - exists (ops0 ++ [o]). unfold run. rewrite fold_left_app. reflexivity.
+      - exists (ops0 ++ nohints_ops x (run ops0)). symmetry. unfold run at 1. rewrite fold_left_app. reflexivity. }
+    destruct E as [ops1 E]. rewrite E. apply IH.
+Qed.
+
+Theorem hrun_is_run hs : exists ops, hrun hs = run ops.
+Proof. unfold hrun. change init with (run []). apply hrun_from_run. Qed.
+
+(* ... and it is answered at once: the lookup is errbacked at the moment it is made; without an armed retry the Tub is
+   left with NO connector and nobody waiting (so the next lookup starts a connector, with a time-out, of its own: getref_tub);
+   with one, the retry made from inside the errback waits on a new connector whose timer runs from now.
+   Uses the order of effects read from Tub.connectionFailed; the registration of the connector BEFORE connect() is a
+   translated shape fact of Tub.getBrokerForTubRef (translate/g_converge.py) *)
+Theorem sync_failure_answered_at_once ops x :
+  let s := run ops in
+  t_broker (tubof x s) = None -> t_connector (tubof x s) = None ->
+  let s' := fold_left step (nohints_ops x s) s in
+  now s' = now s /\
+  In (mkfired (t_issued (tubof x s)) (now s) (now s) false) (t_fired (tubof x s')) /\
+  (t_retry (tubof x s) = false -> t_connector (tubof x s') = None /\ t_waiters (tubof x s') = []) /\
+  (t_retry (tubof x s) = true ->
+     t_waiters (tubof x s') = [(S (t_issued (tubof x s)), now s)] /\ t_connector (tubof x s') <> None /\
+     t_deadline (tubof x s') = (now s + CONNECTION_TIMEOUT)%Z /\ t_retry (tubof x s') = false).
+Proof.
+  cbv zeta. intros Eb Ec.
+  pose proof (winv_tubof true x _ (run_winv ops)) as W. destruct W as (W1 & _).
+  assert (Ew : t_waiters (tubof x (run ops)) = []).
+  { destruct (t_waiters (tubof x (run ops))) eqn:E; [reflexivity|]. exfalso. apply W1; [discriminate|exact Ec]. }
+  unfold nohints_ops. rewrite Eb, Ec. cbn [fold_left step]. unfold do_timeout, do_getref.
+  rewrite tubof_set_tub.
+  assert (Ecn : t_connector (getref_tub (now (run ops)) (tubof x (run ops))) = Some (t_gen (tubof x (run ops)))).
+  { unfold getref_tub. rewrite Eb, Ec. reflexivity. }
+  rewrite Ecn.
+  set (t1 := getref_tub (now (run ops)) (tubof x (run ops))).
+  set (s0 := set_tub x t1 (run ops)).
+  set (s1 := map_conns (cancel x (t_gen (tubof x (run ops)))) s0).
+  assert (E1 : tubof x s1 = t1) by (destruct x; reflexivity).
+  assert (En : now s1 = now (run ops)) by (destruct x; reflexivity).
+  rewrite tubof_set_tub, E1, En.
+  assert (Et : t1 = getref_tub (now (run ops)) (tubof x (run ops))) by reflexivity.
+  unfold getref_tub in Et. rewrite Eb, Ec, Ew in Et. cbn [app] in Et.
+  split; [destruct x; reflexivity|].
+  rewrite Et. unfold connector_gone, connection_failed_forgets_first, errback_all.
+  cbn [set_connector t_broker t_retry t_waiters List.length Nat.eqb negb andb fire map fst snd t_fired].
+  destruct (t_retry (tubof x (run ops))) eqn:Er; cbn [andb].
+  - unfold getref_tub. cbn [set_retry t_broker t_connector t_fired t_waiters t_issued t_deadline t_retry t_gen app].
+    split; [apply in_or_app; right; left; reflexivity|].
+    split; [discriminate|]. intros _.
+    split; [reflexivity|]. split; [discriminate|]. split; reflexivity.
+  - cbn [t_fired t_connector t_waiters].
+    split; [apply in_or_app; right; left; reflexivity|].
+    split; [intros _; split; reflexivity|discriminate].
+Qed.
+
+(* with a Broker or a live connector the hints are not looked at: it is an ordinary lookup *)
+Lemma nohints_is_plain_lookup x s :
+  t_broker (tubof x s) <> None \/ t_connector (tubof x s) <> None -> nohints_ops x s = [GetRef x].
+Proof.
+  unfold nohints_ops. intros [H|H]; destruct (t_broker (tubof x s)); destruct (t_connector (tubof x s)); try reflexivity;
+    exfalso; apply H; reflexivity.
+Qed.
+
+(* no hints at all; no hints with a retry armed for the errback (which dials one good hint) *)
+Example sync_failure_examples :
+  let s := hrun [GetRefNoHints TS] in
+  t_fired (ts s) = [mkfired 0 0 0 false] /\ t_connector (ts s) = None /\ t_waiters (ts s) = [] /\
+  let s2 := hrun [GetRefNoHints TS; Plain (GetRef TS); Plain (DialHint TS); Plain (Deliver 0 TM); Plain (Deliver 0 TS); Plain (Deliver 0 TS)] in
+  t_fired (ts s2) = [mkfired 0 0 0 false; mkfired 1 0 0 true] /\ t_broker (ts s2) = Some 0%nat /\ t_broker (tm s2) = Some 0%nat /\
+  let s3 := hrun [Plain (ArmRetry TM); Plain (Advance 7); GetRefNoHints TM; Plain (DialHint TM); GetRefNoHints TM] in
+  t_fired (tm s3) = [mkfired 0 7 7 false] /\ t_waiters (tm s3) = [(1%nat, 7%Z); (2%nat, 7%Z)] /\ t_deadline (tm s3) = 127%Z.
+Proof. vm_compute. repeat split. Qed.
+
 (* the instant retry: a lookup fails at the time-out, its errback looks the Tub up again at once; the new lookup waits
    on a NEW connector and is answered by that connector's own time-out, CONNECTION_TIMEOUT later *)
 Example retry_from_errback :
